@@ -5,6 +5,7 @@
 import Fca.Drv.Util
 import Fca.Model.Sofia
 import Fca.Spec.Concepts
+import Fca.Spec.Miners
 open Lean
 namespace Fca.Drv.C02
 open Fca Fca.Drv
@@ -54,7 +55,7 @@ def run : Handler := fun j => do
     | .ok (.bool b) => b
     | _ => false
   let skipped : Json := Json.mkObj [("skipped", Json.bool true)]
-  let all := canonPairs (Spec.allConcepts K.table)
+  let all := canonPairs (Spec.allConceptsFast K.table)
   let o0 := ordersOf 0
   let perCode := codes.map fun c =>
     let o := ordersOf c
@@ -67,6 +68,8 @@ def run : Handler := fun j => do
       ("sofia", jConcepts (.ok (sofia K o.tie lmax 0))),
       ("default", if noLindig then skipped else jConcepts (fromContext K .default o)),
       ("Lindig", if noLindig then skipped else jConcepts (fromContext K (.lindig none) o)),
+      ("LindigT", if noLindig then skipped else jConcepts (fromContext K (.lindig (some true)) o)),
+      ("LindigF", if noLindig then skipped else jConcepts (fromContext K (.lindig (some false)) o)),
       ("Sofia", jConcepts (fromContext K (.sofia lmax 0) o))]
   pure (Json.mkObj [
     ("all", jPairs all),
@@ -85,7 +88,7 @@ def sortL (xs : List Nat) : List Nat := sortIdx xs
 def judge : Handler := fun j => do
   let t ← getTable j
   let ls ← arr (← j.getObjVal? "lists")
-  let all := Spec.allConcepts t
+  let all := Spec.allConceptsFast t
   let res ← ls.mapM fun l => do
     let ps ← (← arr l).mapM fun p => do
       let xs ← arr p
